@@ -803,23 +803,57 @@ sexp sexp_bignum_sqrt (sexp ctx, sexp a, sexp* rem_out) {
 
 #if SEXP_USE_RATIOS
 
+/* number of bits of the magnitude of an exact integer */
+static sexp_sint_t sexp_exact_integer_bits (sexp x) {
+  sexp_uint_t w;
+  sexp_sint_t n = 0;
+  if (sexp_bignump(x)) {
+    n = (sexp_bignum_hi(x) - 1) * sizeof(sexp_uint_t) * 8;
+    w = sexp_bignum_data(x)[sexp_bignum_hi(x) - 1];
+  } else {
+    w = sexp_unbox_fx_abs(x);
+  }
+  for ( ; w; w >>= 1)
+    n++;
+  return n;
+}
+
 double sexp_ratio_to_double (sexp ctx, sexp rat) {
-  sexp_gc_var1(quot);
+  sexp_sint_t shift, k;
+  sexp_uint_t w;
+  sexp_gc_var3(quot, rem, scale);
   sexp num = sexp_ratio_numerator(rat), den = sexp_ratio_denominator(rat);
   double res = (sexp_bignump(num) ? sexp_bignum_to_double(num)
           : sexp_fixnum_to_double(num))
     / (sexp_bignump(den) ? sexp_bignum_to_double(den)
        : sexp_fixnum_to_double(den));
-  if (!isfinite(res)) {
-    sexp_gc_preserve1(ctx, quot);
-    if (sexp_unbox_fixnum(sexp_compare(ctx, sexp_ratio_numerator(rat),  sexp_ratio_denominator(rat))) < 0) {
-      quot = sexp_quotient(ctx, sexp_ratio_denominator(rat),  sexp_ratio_numerator(rat));
-      res = 1 / sexp_to_double(ctx, quot);
+  if ((!isfinite(res) || res == 0) && num != SEXP_ZERO) {
+    /* a part is out of the range of a double: divide as integers, */
+    /* scaled so that the quotient has 62 or 63 bits, then scale back */
+    sexp_gc_preserve3(ctx, quot, rem, scale);
+    shift = sexp_exact_integer_bits(den) - sexp_exact_integer_bits(num) + 62;
+    k = (shift < 0 ? -shift : shift);
+    scale = sexp_make_bignum(ctx, k / (sizeof(sexp_uint_t)*8) + 1);
+    sexp_bignum_sign(scale) = 1;
+    sexp_bignum_data(scale)[k / (sizeof(sexp_uint_t)*8)]
+      = (sexp_uint_t)1 << (k % (sizeof(sexp_uint_t)*8));
+    scale = sexp_bignum_normalize(scale);
+    if (shift < 0) {
+      scale = sexp_mul(ctx, den, scale);
+      quot = sexp_quotient(ctx, num, scale);
+      rem = sexp_remainder(ctx, num, scale);
     } else {
-      quot = sexp_quotient(ctx, sexp_ratio_numerator(rat),  sexp_ratio_denominator(rat));
-      res = sexp_to_double(ctx, quot);
+      scale = sexp_mul(ctx, num, scale);
+      quot = sexp_quotient(ctx, scale, den);
+      rem = sexp_remainder(ctx, scale, den);
     }
-    sexp_gc_release1(ctx);
+    w = (sexp_bignump(quot) ? sexp_bignum_data(quot)[0] : sexp_unbox_fx_abs(quot));
+    if (rem != SEXP_ZERO)
+      w |= 1;                   /* sticky bit: round once, to nearest */
+    res = ldexp((double)w, -shift);
+    if (sexp_exact_negativep(num))
+      res = -res;
+    sexp_gc_release3(ctx);
   }
   return res;
 }
